@@ -413,6 +413,25 @@ func sameOutcome(a, b outcome) bool {
 	return true
 }
 
+// zeroForNaNOnly: every element that misses the demanded class is a plain 0
+// where NaN is demanded (special operands, C03).
+func zeroForNaNOnly(rc *rec, out outcome) bool {
+	if out.panicMsg != "" || len(out.content) != len(rc.Exp.C) {
+		return false
+	}
+	n := 0
+	for i, e := range rc.Exp.C {
+		if elemOK(&elemType{class: "plain"}, e, out.content[i]) == "" {
+			continue
+		}
+		if !(e[2] == 3 && out.content[i].V == 0) {
+			return false
+		}
+		n++
+	}
+	return n > 0
+}
+
 // classifySpecialDiff names the one known shape of a divergence on special
 // operands (the concrete method wrote a plain 0 where the generic one computed
 // NaN from a zero and an Inf/NaN); everything else is "differ_special".
@@ -626,6 +645,9 @@ func containerCase(rc *rec, line []byte, mode string, flt *only, out *vh.Out, st
 					gen := runGeneric(in, rc, in.build(rc))
 					what, idx := judge(t, rc, gen)
 					if what != "" && mode == "c03" {
+						if rc.Sp == "fs" && what == "value" && zeroForNaNOnly(rc, gen) {
+							what = "special_zero_where_nan" // the one known shape: a zero numerator over NaN stored as 0
+						}
 						report(out, st, vh.M{"engine": "containers", "variant": "generic", "op": rc.Op, "recv": recvClass(rc),
 							"what": what, "type": t.name},
 							vh.M{"record": json.RawMessage(line), "type": t.name, "ak": ak, "bk": bk, "const_operands": constOp,
